@@ -14,7 +14,7 @@ fn odd1(m: Word) -> Odd<Uint<1>> {
     Odd::new(Uint::<1>::new([Limb(m)])).unwrap()
 }
 
-//@ prop=C08,C15,C11 tier=quick profile=k8 funcs="MontyParams::new,MontyParams::new_vartime,Uint::inv_mod2k_vartime,Uint::inv_mod2k_full_vartime,montgomery_reduction,Monty::new_params_vartime" bound="u8 words, 1 limb: every odd modulus m >= 3 (exhaustive): constant-time and vartime constructors identical and equal to the definitions" free_bits=7 assumes="m != 1 (isolated in c08_k8_params_modulus_one)"
+//@ prop=C08,C15,C11 tier=quick profile=k8 funcs="MontyParams::new,MontyParams::new_vartime,Uint::inv_mod2k_vartime,Uint::inv_mod2k_full_vartime,montgomery_reduction,Monty::new_params_vartime" bound="u8 words, 1 limb: every odd modulus m >= 3 (exhaustive): constant-time and vartime constructors identical and equal to the definitions" free_bits=7 assumes="m != 1 (isolated in c08_k8_params_modulus_one)" core=C15
 #[kani::proof]
 #[kani::unwind(12)]
 fn c08_k8_params_1_all_moduli() {
